@@ -1,21 +1,31 @@
+import CppUModel.Model.ThreadSafeSyntax
+import CppUModel.Gen.ThreadSafeWiring
 /-!
 # Thread-safe allocation mode (C10): lock discipline and interleaving model
 
 Written from `src/CppUTest/MemoryLeakWarningPlugin.cpp` (the `threadsafe_mem_leak_*` wrappers,
-`MemLeakScopedMutex`), `src/CppUTest/SimpleMutex.cpp` (`ScopedMutexLock`), the pthread seams in
-`src/Platforms/Gcc/UtestPlatform.cpp` and the detector operations the wrappers call
-(`MemoryLeakDetector::allocMemory / deallocMemory / reallocMemory`).
+`MemLeakScopedMutex`, `MemoryLeakWarningReporter::fail`), `src/CppUTest/SimpleMutex.cpp`
+(`ScopedMutexLock`), the pthread seams in `src/Platforms/Gcc/UtestPlatform.cpp` and the detector
+operations the wrappers call (`MemoryLeakDetector::allocMemory / deallocMemory / reallocMemory`).
 
 Part 1 (lock discipline).  Every wrapper is
 
-    MemLeakScopedMutex lock;          -- acquire  (pthread_mutex_lock on ONE non-recursive mutex)
+    MemLeakScopedMutex lock;          -- constructor: member `ScopedMutexLock lock(getMutex())`
+                                      --   = `mutex->Lock()` on ONE non-recursive pthread mutex,
+                                      --   then the body `memLeakMutexIsHeld = true;`
     detector->operation(...)          -- body
-                                      -- release  (~ScopedMutexLock at the closing brace)
+                                      -- destructor at the closing brace: `memLeakMutexIsHeld = false;`
+                                      --   then the member's destructor = `mutex->Unlock()`
 
 The body can end in a *misuse report*: `MemoryLeakWarningReporter::fail` calls
-`UtestShell::failWith(.., getCurrentTestTerminatorWithoutExceptions())`, which leaves by
-`longjmp`.  A `longjmp` does not run destructors, so the release is skipped: the model mirrors
-the code as it is (`finish`).
+`MemLeakScopedMutex::releaseBeforeFailing()` (`if (memLeakMutexIsHeld) { memLeakMutexIsHeld = false;
+getMutex()->Unlock(); }`) and then `UtestShell::failWith(.., getCurrentTestTerminatorWithoutExceptions())`,
+which leaves by `longjmp`.  A `longjmp` does not run destructors, so the destructor's statements are
+skipped on that path.  The four statement lists are NOT written here: they are regenerated from the
+source on every run (`Gen.ThreadSafe.code`) and executed by `exec` / `execFail` below, so the model
+is the code as it is at check time (a constructor that forgets the flag, a `fail` that does not call
+`releaseBeforeFailing`, a release that unlocks before it clears the flag all change what this model
+does and break the obligations of `Props/C10.lean`).
 
 Part 2 (interleaving).  Threads are lists of operations; because of Part 1 plus the generated
 wiring obligation (`Gen/ThreadSafeWiring.lean`: every entry point is switched to a function that
@@ -28,10 +38,6 @@ namespace ThreadSafe
 /-- which allocator family a block came from (`new`, `new[]`, `malloc`) -/
 inductive Kind
   | new | newArray | malloc
-deriving DecidableEq, Repr, Inhabited
-
-inductive LockState
-  | free | held
 deriving DecidableEq, Repr, Inhabited
 
 /-- how a wrapper's body ends: normally (falls off the closing brace) or by a misuse report
@@ -93,37 +99,122 @@ def body : DetOp → Det → Det × Outcome
 
 /-! ## Part 1: the lock around one operation -/
 
-structure Sys where
+/-- the detector's mutex and the file-static flag `memLeakMutexIsHeld` -/
+structure LF where
   lock : LockState
-  det  : Det
+  flag : Bool
 deriving DecidableEq, Repr, Inhabited
 
-/-- `pthread_mutex_lock` on the detector's non-recursive mutex: `none` = the caller blocks
-    (forever, if nobody will release) -/
-def acquire (s : Sys) : Option Sys :=
-  match s.lock with
-  | .free => some { s with lock := .held }
-  | .held => none
+/-- nobody inside a wrapper -/
+def LF.idle : LF := { lock := .free, flag := false }
+/-- where a wrapper's body runs: mutex taken, flag set -/
+def LF.inside : LF := { lock := .held, flag := true }
 
-def runBody (op : DetOp) (s : Sys) : Sys × Outcome :=
-  ({ s with det := (body op s.det).1 }, (body op s.det).2)
+/-- one simple statement.  `pthread_mutex_lock` on the detector's non-recursive mutex: `none` = the
+    caller blocks (for ever, if nobody will release) -/
+def execSimple : Simple → LF → Option LF
+  | .lock, s => if s.lock = .free then some { s with lock := .held } else none
+  | .unlock, s => some { s with lock := .free }
+  | .setFlag b, s => some { s with flag := b }
 
-/-- `~ScopedMutexLock` → `pthread_mutex_unlock` -/
-def release (s : Sys) : Sys := { s with lock := .free }
+def execSimples : List Simple → LF → Option LF
+  | [], s => some s
+  | x :: xs, s => (execSimple x s).bind (execSimples xs)
 
-/-- end of the wrapper's scope: the destructor runs on a normal exit and is skipped by `longjmp` -/
-def finish : Sys × Outcome → Sys
-  | (s, .normal) => release s
-  | (s, .misuse) => s
+def execStmt : LStmt → LF → Option LF
+  | .simple x, s => execSimple x s
+  | .ifFlag b, s => if s.flag then execSimples b s else some s
 
-/-- a whole `threadsafe_mem_leak_*` call -/
-def wrapper (op : DetOp) (s : Sys) : Option Sys :=
-  (acquire s).map (fun s1 => finish (runBody op s1))
+/-- a statement list in source order -/
+def exec : List LStmt → LF → Option LF
+  | [], s => some s
+  | x :: xs, s => (execStmt x s).bind (exec xs)
 
-/-- the unlocked `mem_leak_*` call of the default mode (no lock involved) -/
-def plainCall (op : DetOp) (s : Sys) : Sys := (runBody op s).1
+/-- `MemoryLeakWarningReporter::fail`: statements up to and including the `failWith` that leaves by
+    `longjmp`; what follows it is never executed -/
+def execFail (c : Code) : List FStmt → LF → Option LF
+  | [], s => some s
+  | .other :: fs, s => execFail c fs s
+  | .releaseBeforeFailing :: fs, s => (exec c.release s).bind (execFail c fs)
+  | .failWith :: _, s => some s
+
+structure Sys where
+  lf  : LF
+  det : Det
+deriving DecidableEq, Repr, Inhabited
+
+/-- lock free, flag clear, table `d` -/
+def Sys.idle (d : Det) : Sys := { lf := LF.idle, det := d }
+
+def Sys.lock (s : Sys) : LockState := s.lf.lock
+
+/-- how the scope of a wrapper is left: the destructor runs on a normal exit; a misuse report runs
+    `fail`, whose `longjmp` skips the destructor -/
+def leave (c : Code) : Outcome → LF → Option LF
+  | .normal, s => exec c.dtor s
+  | .misuse, s => execFail c c.fail s
+
+def withDet (d : Det) (l : LF) : Sys := { lf := l, det := d }
+
+/-- a whole `threadsafe_mem_leak_*` call, for the code `c` -/
+def wrapperWith (c : Code) (op : DetOp) (s : Sys) : Option Sys :=
+  ((exec c.ctor s.lf).bind (leave c (body op s.det).2)).map (withDet (body op s.det).1)
+
+/-- the unlocked `mem_leak_*` call of the default mode: no scoped lock; a misuse report still goes
+    through `MemoryLeakWarningReporter::fail` -/
+def plainCallWith (c : Code) (op : DetOp) (s : Sys) : Option Sys :=
+  (match (body op s.det).2 with
+   | .normal => some s.lf
+   | .misuse => execFail c c.fail s.lf).map (withDet (body op s.det).1)
+
+/-- the code as it is in the source tree at check time -/
+def wrapper (op : DetOp) (s : Sys) : Option Sys := wrapperWith Gen.ThreadSafe.code op s
+def plainCall (op : DetOp) (s : Sys) : Option Sys := plainCallWith Gen.ThreadSafe.code op s
 
 def isMisuse (op : DetOp) (d : Det) : Bool := (body op d).2 == .misuse
+
+/-! ### the states a wrapper goes through, statement by statement (for the flag invariant) -/
+
+def traceSimples : List Simple → LF → List LF
+  | [], _ => []
+  | x :: xs, s =>
+    match execSimple x s with
+    | some s' => s' :: traceSimples xs s'
+    | none => []
+
+def traceStmt : LStmt → LF → List LF
+  | .simple x, s => traceSimples [x] s
+  | .ifFlag b, s => if s.flag then traceSimples b s else []
+
+/-- every state reached while the list runs from `s` (after each simple statement) -/
+def trace : List LStmt → LF → List LF
+  | [], _ => []
+  | x :: xs, s =>
+    traceStmt x s ++ (match execStmt x s with
+                      | some s' => trace xs s'
+                      | none => [])
+
+def traceFail (c : Code) : List FStmt → LF → List LF
+  | [], _ => []
+  | .other :: fs, s => traceFail c fs s
+  | .releaseBeforeFailing :: fs, s =>
+    trace c.release s ++ (match exec c.release s with
+                          | some s' => traceFail c fs s'
+                          | none => [])
+  | .failWith :: _, _ => []
+
+/-- all states of one wrapper call that starts with nobody inside: constructor, the point where the
+    body runs, then destructor (normal exit) or `fail` (misuse report) -/
+def wrapperTrace (c : Code) (o : Outcome) : List LF :=
+  LF.idle :: trace c.ctor LF.idle ++
+    (match exec c.ctor LF.idle with
+     | some s1 => (match o with
+                   | .normal => trace c.dtor s1
+                   | .misuse => traceFail c c.fail s1)
+     | none => [])
+
+/-- the state in which the body (and therefore a misuse report) runs -/
+def bodyPoint (c : Code) : Option LF := exec c.ctor LF.idle
 
 /-! ## Part 2: threads and schedules -/
 
@@ -151,9 +242,11 @@ def runDet : List DetOp → Det → Det
   | op :: ops, d => runDet ops (body op d).1
 
 /-- the system run: every operation as a whole wrapper; `none` = some wrapper blocks -/
-def runSys : List DetOp → Sys → Option Sys
+def runSysWith (c : Code) : List DetOp → Sys → Option Sys
   | [], s => some s
-  | op :: ops, s => (wrapper op s).bind (runSys ops)
+  | op :: ops, s => (wrapperWith c op s).bind (runSysWith c ops)
+
+def runSys (ops : List DetOp) (s : Sys) : Option Sys := runSysWith Gen.ThreadSafe.code ops s
 
 /-- environment contract: the underlying allocator never returns a block that is live -/
 def fresh : DetOp → Det → Bool
